@@ -1,2 +1,43 @@
-(* P_C15.v — property C15: theorems only (proofs in progress). *)
-From RS Require Import Base Network Transition TransSpec.
+(* P_C15.v — property C15: theorems only. [TInv] (TransSpec.v): the cycles contain each vehicle exactly once,
+   the lookup table and the list of reusable empty cycles match the cycles, each cycle's counter and the
+   totals equal their recomputed values. Every rotation-cycle operation preserves it. *)
+From Coq Require Import Permutation.
+From RS Require Import Base Network Transition TransSpec TransStmts TransFacts LocalSearch LSStmts LSFacts.
+
+Theorem C15_empty_inv : stmt_empty_inv.
+Proof. exact empty_inv. Qed.
+Print Assumptions C15_empty_inv.
+Theorem C15_add_own_inv : stmt_add_own_inv.
+Proof. exact add_own_inv. Qed.
+Print Assumptions C15_add_own_inv.
+Theorem C15_update_inv : stmt_update_inv.
+Proof. exact update_inv. Qed.
+Print Assumptions C15_update_inv.
+Theorem C15_remove_inv : stmt_remove_inv.
+Proof. exact remove_inv. Qed.
+Print Assumptions C15_remove_inv.
+Theorem C15_add_end_inv : stmt_add_end_inv.
+Proof. exact add_end_inv. Qed.
+Print Assumptions C15_add_end_inv.
+Theorem C15_move_inv : stmt_move_inv.
+Proof. exact move_inv. Qed.
+Print Assumptions C15_move_inv.
+Theorem C15_replace_cycle_inv : stmt_replace_cycle_inv.
+Proof. exact replace_cycle_inv. Qed.
+Print Assumptions C15_replace_cycle_inv.
+(* 3-opt reorders the same vehicles and keeps the counter exact; the neighbourhood only enumerates i<j<k<n *)
+Theorem C15_three_opt_exact : stmt_three_opt_exact.
+Proof. exact three_opt_exact. Qed.
+Print Assumptions C15_three_opt_exact.
+Theorem C15_three_opt_indices_ok : stmt_three_opt_indices_ok.
+Proof. exact three_opt_indices_ok. Qed.
+Print Assumptions C15_three_opt_indices_ok.
+(* before the repair "fix: add_vehicle_at_the_end returned the stale list of empty cycles" the invariant broke *)
+Theorem C15_add_end_prefix_refuted : stmt_add_end_prefix_refuted.
+Proof. exact add_end_prefix_refuted. Qed.
+Print Assumptions C15_add_end_prefix_refuted.
+(* the optimisation is the generic local search over (violation, counter): it returns a result not worse than
+   what it was given (instance of the C08 theorem) *)
+Theorem C15_opt_not_worse : forall S obj neighbors pick k, stmt_run_descends S obj neighbors pick k.
+Proof. exact run_descends. Qed.
+Print Assumptions C15_opt_not_worse.
